@@ -128,7 +128,12 @@ pub fn run<W: Write>(opts: &Opts, out: &mut W) {
         match i % 3 {
             0 => {
                 // limit: files with one or two moov boxes (sizes known), valid and broken
-                let ftyp = bx(b"ftyp", &ftyp_payload(&mut r, true, 2, 0), Enc::S32);
+                // the limit is about moov payloads only: a seventh of the files carry an ftyp LARGER than their moov boxes
+                // (many compatible brands), and its size joins the lattice
+                let big_ftyp = i % 21 == 0;
+                let ftyp_p = ftyp_payload(&mut r, true, if big_ftyp { 120 } else { 2 }, 0);
+                let ftyp_len = ftyp_p.len() as u64;
+                let ftyp = bx(b"ftyp", &ftyp_p, Enc::S32);
                 let nm = 1 + r.below(2) as usize;
                 let mut moovs = vec![];
                 for _ in 0..nm {
@@ -163,8 +168,13 @@ pub fn run<W: Write>(opts: &Opts, out: &mut W) {
                     2 => bytes.extend(bx(b"abcd", &[1], Enc::S32)),
                     _ => {}
                 }
+                if i % 30 == 3 {
+                    // no moov at all: whatever the limit, the answer is the same error
+                    bytes = [bx(b"ftyp", &ftyp_p, Enc::S32), bx(b"mdat", &r.bytes(5), Enc::S32)].concat();
+                }
                 let mut sizes: Vec<u64> = moovs.iter().map(|m| m.len() as u64).collect();
                 sizes.extend(gap_sizes);
+                sizes.extend_from_slice(&[ftyp_len, 8, 12]);
                 emit_limit(out, &format!("limit-{i}"), &Sparse::from_bytes(&bytes), &sizes, kind);
             }
             1 => {
